@@ -104,6 +104,11 @@ func gfCases() []*gfCase {
 			{name: "UPPER.go", pkg: "p", flow: true, tagged: true},
 			{name: "plain.go", pkg: "p", flow: false, tagged: true},
 			{name: "untagged.go", pkg: "p", flow: false, tagged: false},
+			// files of the package that merely look like outputs of its directive-less files
+			// (other generators use the same naming): never cff's to touch
+			{name: "plain_gen.go", pkg: "p", flow: false, tagged: false},
+			{name: "untagged_gen.go", pkg: "p", flow: false, tagged: false},
+			{name: "untagged_gen_test.go", pkg: "p", flow: false, tagged: false},
 		}
 	}
 	add := func(id string, c gfCase) {
